@@ -359,24 +359,24 @@ def classify (input : List Byte) : LineClass :=
     else if (tag tSTACK_ input).isSome then .stack
     else .other
 
+/-- the body of the branch taken (index.rs:607-642); `lineLen` = `input.len() as u32` -/
+def applyClass (st : Inner) (off lineLen : Nat) (input : List Byte) : LineClass → Option Inner
+  | .file idx => some { st with files := st.files.push ⟨idx, lineLen, off⟩ }
+  | .origin idx => some { st with origins := st.origins.push ⟨idx, lineLen, off⟩ }
+  | .pub addr =>
+    (finishPending st off).map fun st => { st with symbols := st.symbols ++ [(addr, ⟨0, lineLen, off⟩)] }
+  | .func addr => (finishPending st off).map fun st => { st with pending := some (addr, off) }
+  | .info =>
+    (finishPending st off).map fun st => { st with moduleInfoBytes := st.moduleInfoBytes ++ 10 :: input }
+  | .stack => finishPending st off
+  | .other => some st
+
 /-- `process_line` (index.rs:588-643) -/
 def processLine (st : Inner) (off : Nat) (line : List Byte) : Option Inner :=
   let input := stripCR line
   if !st.hasModule then
     some { st with hasModule := (moduleLine input).isSome, moduleInfoBytes := input }
-  else
-    let lineLen := input.length % pow32
-    match classify input with
-    | .file idx => some { st with files := st.files.push ⟨idx, lineLen, off⟩ }
-    | .origin idx => some { st with origins := st.origins.push ⟨idx, lineLen, off⟩ }
-    | .pub addr =>
-      (finishPending st off).map fun st => { st with symbols := st.symbols ++ [(addr, ⟨0, lineLen, off⟩)] }
-    | .func addr => (finishPending st off).map fun st => { st with pending := some (addr, off) }
-    | .info =>
-      (finishPending st off).map fun st =>
-        { st with moduleInfoBytes := st.moduleInfoBytes ++ 10 :: input }
-    | .stack => finishPending st off
-    | .other => some st
+  else applyClass st off (input.length % pow32) input (classify input)
 
 /-- the callback log of the line buffer, fed to `process_line` in order -/
 def processLog (st : Inner) : Log → Option Inner
